@@ -456,14 +456,14 @@ struct PredGen {
             if (last) return; const L& c = s.ls[i + 1];
             if (l.v[5] == 0 && (c.k == TCPK || c.k == UDPK || c.k == ICMP4)) l4(i + 1, false, 0);
             else if (c.k == IP4) { tf("ipip-inner-src", "ip[" + N(l.hlen + 12) + ":4] = 0x" + hex(c.a1), "ip[" + N(l.hlen + 12) + ":4] = 0x" + hex(flip(c.a1))); num("ipip-inner-len", "ip[" + N(l.hlen + 2) + ":2]", c.end - c.off); }
-            else if (c.k == AHK) { int q = ipproto_of(s, i + 2); if (q >= 0) tf("ip-protochain", "ip protochain " + N(q), "ip protochain 132"); num("ah-len", "ip[" + N(l.hlen + 1) + "]", c.hlen / 4 - 2); }
+            else if (c.k == AHK) { int q = ipproto_of(s, i + 2); if (q >= 0 && s.dlt != DLT_IEEE802_11_RADIO) tf("ip-protochain", "ip protochain " + N(q), "ip protochain 132"); num("ah-len", "ip[" + N(l.hlen + 1) + "]", c.hlen / 4 - 2); }
         }
         else if (l.k == IP6K) {
             tf("ip6", "ip6", "ip"); tf("ip6-src", "ip6 src " + s_ip6(l.a1), "ip6 src " + s_ip6(flip(l.a1))); tf("ip6-dst", "ip6 dst " + s_ip6(l.a2), "ip6 dst " + s_ip6(flip(l.a2)));
             num("ip6-hlim", "ip6[7]", l.v[2]); num("ip6-plen", "ip6[4:2]", l.end - l.off - 40);
             int p = ipproto_of(s, i + 1); if (last) return;
             if (l.tl.empty()) { if (p >= 0) { tf("ip6-proto", "ip6 proto " + N(p), "ip6 proto " + N(p == 6 ? 17 : 6)); l4(i + 1, true, 40); } }
-            else { num("ip6-nh0", "ip6[6]", l.tl[0].t); if (p >= 0 && s.kf.empty()) { tf("ip6-protochain", "ip6 protochain " + N(p), "ip6 protochain 132"); if (l.hlen < 200) l4r(i + 1, l.hlen); } }
+            else { num("ip6-nh0", "ip6[6]", l.tl[0].t); if (p >= 0 && s.kf.empty()) { if (s.dlt != DLT_IEEE802_11_RADIO) tf("ip6-protochain", "ip6 protochain " + N(p), "ip6 protochain 132"); /* libpcap: no protochain behind variable-length link headers */ if (l.hlen < 200) l4r(i + 1, l.hlen); } }
         }
     }
     void l4r(size_t i, u32 base) {   // raw offsets only (behind extension headers)
@@ -741,12 +741,12 @@ struct Hist {
     }
     bool m_clone() { p.reset(p->clone()); note("clone"); return true; }
     // choose the first payload word so that the one's-complement sum becomes 0xffff (checksum 0x0000; UDP must send 0xffff)
-    bool m_zero_sum() {
+    bool m_zero_sum(int force = -1) {
         size_t n = s.ls.size(); if (!last_ok || n < 2 || s.ls[n - 1].k != RAWK || s.ls[n - 1].raw.size() < 2) return false; const L& q = s.ls[n - 2]; size_t f;
         if (q.k == TCPK) f = q.off + 16; else if (q.k == UDPK) f = q.off + 6; else if ((q.k == ICMP4 && !icmp4_ext_ok(q.v[0])) || (q.k == ICMP6K && q.v[0] >= 128)) f = q.off + 2; else return false;
         if (n < 3 || (s.ls[n - 3].k != IP4 && s.ls[n - 3].k != IP6K)) return false;
         u32 c = be16(y, f); if (q.k == UDPK && c == 0xffff) return false; Bytes& b = s.ls[n - 1].raw; u32 w = (b[0] << 8) | b[1];
-        u32 t = r.chance(1, 2) ? 0xffff : 1 + r.below(6);       // target folded sum: 0xffff (checksum 0) or a tiny value (the unfolded sum then needs a second end-around carry)
+        u32 t = force == 0 ? 0xffff : (force == 1 || r.chance(1, 2)) ? (1 + r.below(3)) << (r.chance(1, 2) ? 8 : 0) : 0xffff;   // 0xffff (checksum 0) or tiny in either byte order (the unfolded sum then needs a second end-around carry)
         u16 nw = fold((u64)w + c + t); b[0] = nw >> 8; b[1] = nw & 0xff; set_raw(n - 1); note("steer sum to " + N(t)); return true;
     }
     // scramble the derived fields on the wire, parse, serialize again: everything derived must be recomputed
@@ -857,7 +857,7 @@ int main(int argc, char** argv) {
             describe_case(show(h.s)); sig(mix(shape_sig(h.s), j));
             try {
                 h.p = build(h.s, (int)(variant & 1)); if (!h.check("built", variant == 0 ? 6 : 10)) return;
-                if (h.m_zero_sum()) { if (!h.check("zero-sum", 0)) return; }
+                if (h.m_zero_sum((int)(variant & 1))) { if (!h.check("zero-sum", 0)) return; }
                 if (variant) { h.mutate(); h.check("mutated:0", 0); if (h.m_reparse()) h.check("reparsed", 0); }
             } catch (std::exception& e) { violation("exception/history/" + current_exception_type(), std::string("unexpected exception: ") + e.what() + " :: " + show(h.s) + h.log); }
             return;
